@@ -422,13 +422,16 @@ class Run:
             self.viol(site, "attribute-refused", {"raised": type(exc).__name__, "msg": str(exc)[:160]})
             raise _Abort()
         if tuple(shape) != want_shape or not isinstance(shape, tuple):
-            self.viol(site, "shape", {"want": list(want_shape), "got": repr(shape)})
-        if tuple(ext) != want_shape:
-            self.viol(site, "data_extent", {"want": list(want_shape), "got": repr(ext)})
-        if ln != want_shape[0] or ln2 != want_shape[0]:
-            self.viol(site, "len", {"want": want_shape[0], "got": [repr(ln), repr(ln2)]})
-        if size != M.size:
-            self.viol(site, "size", {"want": int(M.size), "got": repr(size)})
+            # data_extent / len / size follow the extent; one wrong extent is one finding
+            self.viol(site, "shape", {"want": list(want_shape), "got": repr(shape), "data_extent": repr(ext),
+                                      "len": repr(ln), "size": repr(size)})
+        else:
+            if tuple(ext) != want_shape:
+                self.viol(site, "data_extent", {"want": list(want_shape), "got": repr(ext)})
+            if ln != want_shape[0] or ln2 != want_shape[0]:
+                self.viol(site, "len", {"want": want_shape[0], "got": [repr(ln), repr(ln2)]})
+            if size != M.size:
+                self.viol(site, "size", {"want": int(M.size), "got": repr(size)})
         if self.dt == "str":
             if not (isinstance(dtype, np.dtype) and dtype.kind == "O"):
                 self.viol(site, "dtype", {"want": "object dtype", "got": repr(dtype)})
@@ -484,42 +487,40 @@ class Run:
             self.open("a")
             blk = self.f.blocks[0]
             self.flags.add("create-after-reopen")
-        vals = values(self.dt, shape, c.get("fill", "ramp"), c.get("seed", 0))
         self.model = Model(self.dt, shape)
-        site = "create:" + how
         kw = {"compression": self.cmap(self.compr[2])}
+        if how == "data":
+            vals = values(self.dt, shape, c.get("fill", "ramp"), c.get("seed", 0))
+            lay = c.get("lay", "c")
+            self.flags.add("lay:" + eff_lay(lay, vals, self.dt))
+            dta = self.dtype_arg(c.get("dtarg", "none"))
+            if dta is not None:
+                kw["dtype"] = dta
+            arg = layout(vals, lay, self.dt)
+            try:
+                self.da = blk.create_data_array("a", "t", data=arg, **kw)
+            except Exception as exc:                           # noqa: BLE001
+                self.viol("create:data", "refused", {"raised": type(exc).__name__, "msg": str(exc)[:200]})
+                raise _Abort()
+            self.model.set_all(vals)
+            self.check("create:data")
+            return
+        dtarg = c.get("dtarg", "np")
+        if dtarg == "default" and self.dt != "float64":
+            dtarg = "np"
+        dta = self.dtype_arg(dtarg)
+        if dta is not None:
+            kw["dtype"] = dta
+        self.flags.add("dtarg:" + dtarg)
         try:
-            if how == "data":
-                lay = c.get("lay", "c")
-                self.flags.add("lay:" + eff_lay(lay, vals, self.dt))
-                dta = self.dtype_arg(c.get("dtarg", "none"))
-                if dta is not None:
-                    kw["dtype"] = dta
-                self.da = blk.create_data_array("a", "t", data=layout(vals, lay, self.dt), **kw)
-                self.model.set_all(vals)
-            else:
-                dtarg = c.get("dtarg", "np")
-                if dtarg == "default" and self.dt != "float64":
-                    dtarg = "np"
-                dta = self.dtype_arg(dtarg)
-                if dta is not None:
-                    kw["dtype"] = dta
-                self.flags.add("dtarg:" + dtarg)
-                self.da = blk.create_data_array("a", "t", shape=shape, **kw)
-                self.check("create:shape-only")
-                if how == "wd":
-                    self.da.write_direct(vals)
-                else:
-                    lay = c.get("lay", "c")
-                    self.flags.add("lay:" + eff_lay(lay, vals, self.dt))
-                    self.da[:] = layout(vals, lay, self.dt)
-                self.model.set_all(vals)
-        except _Abort:
-            raise
+            self.da = blk.create_data_array("a", "t", shape=shape, **kw)
         except Exception as exc:                               # noqa: BLE001
-            self.viol(site, "refused", {"raised": type(exc).__name__, "msg": str(exc)[:200]})
+            self.viol("create:shape-only", "refused", {"raised": type(exc).__name__, "msg": str(exc)[:200]})
             raise _Abort()
-        self.check(site)
+        self.check("create:shape-only")
+        # the first whole write is the same call site as a later 'write' step
+        self.step(-1, {"op": "write", "how": how, "fill": c.get("fill", "ramp"), "seed": c.get("seed", 0),
+                       "lay": c.get("lay", "c")})
 
     # -- steps
     def step(self, i, s):
@@ -568,7 +569,7 @@ class Run:
         if op == "write":
             how = s.get("how", "wd")
             vals = values(dt, shape, fill, seed)
-            site = "write:" + how
+            site = "write:" + ("wd" if how == "wd" else "set")          # da[:] = and da[...] = are one call site
             lay = s.get("lay", "c") if how != "wd" else "c"
             self.flags.add("lay:" + eff_lay(lay, vals, dt))
             arg = layout(vals, lay, dt)
@@ -591,7 +592,8 @@ class Run:
                 return None
             selshape = np.shape(sel)
             vk = s.get("v", "exact")
-            site = "assign:" + vk
+            site = "assign"
+            self.flags.add("assign-value:" + vk)
             if vk == "exact":
                 vals = values(dt, selshape, fill, seed)
                 lay = s.get("lay", "c")
@@ -649,8 +651,8 @@ class Run:
             grow = any(a > b for a, b in zip(ext, shape))
             shrink = any(a < b for a, b in zip(ext, shape))
             kind = "mixed" if grow and shrink else "grow" if grow else "shrink" if shrink else "same"
-            site = "resize:" + kind
-            self.flags.add(site)
+            site = "resize:" + ("shrink" if shrink else kind)
+            self.flags.add("resize:" + kind)
             if max(abs(a - b) for a, b in zip(ext, shape)) >= 500:
                 self.flags.add("chunk-crossing")
             empty = False
@@ -679,9 +681,10 @@ class Run:
                 got = self.da[:]
             except Exception:
                 raise _Abort()
-            if tuple(self.da.shape) != tuple(model.M.shape) or compare_values(got, model) is not None:
-                self.viol(site, "refused-but-modified", {"step": i, "shape_before": list(shape),
-                                                         "shape_after": list(self.da.shape)})
+            if (not isinstance(got, np.ndarray) or got.shape != model.M.shape
+                    or compare_values(got, model) is not None):
+                # partial effects of a refused call are C12's subject; here only follow the file
+                self.ctx.count("refused-step-left-partial-state")
                 if not model.resync(got):
                     raise _Abort()
             return site
